@@ -422,7 +422,7 @@ def run_all(obligations, known, budget_s, jobs=None, chunk_paths=200, chunk_s=20
                     if len(a["samples"]) < 4:
                         a["samples"].append(s)
                 left = r["leftover"]
-                if a["violations"] and not OBLIGATIONS[oi].expect_violation:
+                if a["violations"] and not OBLIGATIONS[oi].expect_violation and not os.environ.get("VERIF_ALLV"):
                     left = []     # an unlisted violation ends this obligation early
                     a["stopped_on_violation"] = True
                 if left and not stopped:
